@@ -197,6 +197,165 @@ theorem gridshift_fwd_spec (gs : List (GridObj ℝ)) (c : Coor ℝ) :
         exact hout g hg m)).2
     simp [Gridshift.fwd, this, hb, Grid.n]
 
+/-! ### NTv2: the sub-grid tree walk -/
+
+section subgrids
+variable {R : Type} [Scalar R]
+open Ntv2
+
+/-- sub-grid `id` *takes* the point: it exists, contains the point (tolerance 1e-6) and the point
+is not on its upper latitude or longitude border (NTv2 counts those as outside) -/
+def Takes (g : Ntv2 R) (lon lat : R) (id : Str) : Prop :=
+  ∃ cur, lookupGrid g id = some cur ∧ Grid.contains cur lon lat eps6 = true ∧
+    (Scalar.lt (Scalar.abs (lon - cur.lonE)) eps6 || Scalar.lt (Scalar.abs (lat - cur.latN)) eps6) = false
+
+/-- `find_grid`'s loop with the bookkeeping made visible: `none` when the iteration allowance of
+the model is used up or a table entry is missing (the Rust loop has no allowance; the decoder
+builds both tables together) -/
+def findLoopF (g : Ntv2 R) (lon lat : R) : Nat → List Str → Str → Option Str
+  | 0, _, _ => none
+  | fuel + 1, queue, current =>
+    match queue.getLast? with
+    | none => some current
+    | some gridId =>
+      match lookupGrid g gridId with
+      | none => none
+      | some cur =>
+        if Grid.contains cur lon lat eps6 then
+          if Scalar.lt (Scalar.abs (lon - cur.lonE)) eps6 || Scalar.lt (Scalar.abs (lat - cur.latN)) eps6 then
+            findLoopF g lon lat fuel queue.dropLast current
+          else
+            match childrenOf g gridId with
+            | some ch => findLoopF g lon lat fuel ch gridId
+            | none => some gridId
+        else findLoopF g lon lat fuel queue.dropLast current
+
+/-- whenever the visible loop ends, the model's loop ends with the same sub-grid -/
+theorem findLoopF_eq (g : Ntv2 R) (lon lat : R) (fuel : Nat) (queue : List Str) (current r : Str)
+    (h : findLoopF g lon lat fuel queue current = some r) : findLoop g lon lat fuel queue current = r := by
+  induction fuel generalizing queue current with
+  | zero => simp [findLoopF] at h
+  | succ fuel ih =>
+    unfold findLoopF at h
+    unfold findLoop
+    cases hq : queue.getLast? with
+    | none => simp only [hq] at h ⊢; exact Option.some.inj h
+    | some gridId =>
+      simp only [hq] at h ⊢
+      cases hl : lookupGrid g gridId with
+      | none => simp [hl] at h
+      | some cur =>
+        simp only [hl] at h ⊢
+        split at h
+        · split at h
+          · rename_i h1 h2; simp only [h1, h2, if_true]; exact ih _ _ h
+          · rename_i h1 h2
+            simp only [h1, h2, if_true]
+            cases hc : childrenOf g gridId with
+            | none => simp only [hc] at h ⊢; simp at h ⊢; exact h
+            | some ch => simp only [hc] at h ⊢; simp; exact ih _ _ h
+        · rename_i h1; simp only [h1]; simp; exact ih _ _ h
+
+/-- **the sub-grid used takes the point** (for any hierarchy, any allowance): the walk never
+ends in a sub-grid that does not contain the point -/
+theorem find_grid_sound (g : Ntv2 R) (lon lat : R) (fuel : Nat) (queue : List Str) (current : Str) :
+    findLoop g lon lat fuel queue current = current ∨ Takes g lon lat (findLoop g lon lat fuel queue current) := by
+  induction fuel generalizing queue current with
+  | zero => left; rfl
+  | succ fuel ih =>
+    unfold findLoop
+    cases hq : queue.getLast? with
+    | none => left; rfl
+    | some gridId =>
+      simp only []
+      cases hl : lookupGrid g gridId with
+      | none => left; rfl
+      | some cur =>
+        simp only []
+        split
+        · rename_i h1
+          split
+          · exact ih _ _
+          · rename_i h2
+            have htk : Takes g lon lat gridId := ⟨cur, hl, h1, by simpa using h2⟩
+            cases hc : childrenOf g gridId with
+            | none => right; exact htk
+            | some ch =>
+              simp only []
+              rcases ih ch gridId with h | h
+              · right; rw [h]; exact htk
+              · right; exact h
+        · exact ih _ _
+
+/-- **within an NTv2 file the deepest sub-grid containing the point is used**: when the walk
+ends in sub-grid `r`, either nothing in the queue took the point (and `r` is where the walk
+stood), or `r` takes the point and none of its children does -/
+theorem find_grid_deepest (g : Ntv2 R) (lon lat : R) (fuel : Nat) (queue : List Str) (current r : Str)
+    (h : findLoopF g lon lat fuel queue current = some r) :
+    (r = current ∧ ∀ q ∈ queue, ¬ Takes g lon lat q) ∨
+    (Takes g lon lat r ∧ ∀ chs, childrenOf g r = some chs → ∀ ch ∈ chs, ¬ Takes g lon lat ch) := by
+  induction fuel generalizing queue current with
+  | zero => simp [findLoopF] at h
+  | succ fuel ih =>
+    unfold findLoopF at h
+    cases hq : queue.getLast? with
+    | none =>
+      simp only [hq] at h
+      left
+      have : queue = [] := by simpa using hq
+      exact ⟨(Option.some.inj h).symm, by simp [this]⟩
+    | some gridId =>
+      simp only [hq] at h
+      have hsplit : queue = queue.dropLast ++ [gridId] := by
+        have := List.dropLast_append_getLast? gridId hq
+        exact this.symm
+      cases hl : lookupGrid g gridId with
+      | none => simp [hl] at h
+      | some cur =>
+        simp only [hl] at h
+        -- the popped sub-grid does not take the point: go on with the rest of the queue
+        have skip : ¬ Takes g lon lat gridId → findLoopF g lon lat fuel queue.dropLast current = some r →
+            (r = current ∧ ∀ q ∈ queue, ¬ Takes g lon lat q) ∨
+            (Takes g lon lat r ∧ ∀ chs, childrenOf g r = some chs → ∀ ch ∈ chs, ¬ Takes g lon lat ch) := by
+          intro hnt hrest
+          rcases ih _ _ hrest with ⟨h1, h2⟩ | h2
+          · left
+            refine ⟨h1, fun q hqm => ?_⟩
+            rw [hsplit] at hqm
+            rcases List.mem_append.mp hqm with hm | hm
+            · exact h2 q hm
+            · simp only [List.mem_cons, List.mem_nil_iff, or_false] at hm; subst hm; exact hnt
+          · right; exact h2
+        split at h
+        · rename_i h1
+          split at h
+          · rename_i h2
+            apply skip _ h
+            rintro ⟨c', hl', _, hb⟩
+            rw [hl] at hl'; cases hl'
+            rw [h2] at hb; cases hb
+          · rename_i h2
+            have htk : Takes g lon lat gridId := ⟨cur, hl, h1, by simpa using h2⟩
+            right
+            cases hc : childrenOf g gridId with
+            | none =>
+              simp only [hc] at h
+              cases h
+              exact ⟨htk, fun chs hch => by rw [hc] at hch; cases hch⟩
+            | some ch =>
+              simp only [hc] at h
+              rcases ih _ _ h with ⟨h3, h4⟩ | h4
+              · subst h3
+                exact ⟨htk, fun chs hch => by rw [hc] at hch; cases hch; exact h4⟩
+              · exact h4
+        · rename_i h1
+          apply skip _ h
+          rintro ⟨c', hl', hcont, _⟩
+          rw [hl] at hl'; cases hl'
+          exact h1 hcont
+
+end subgrids
+
 /-! ### non-vacuity -/
 
 example : (0 : ℝ) ≤ 1 / 2 ∧ (1 / 2 : ℝ) ≤ 1 := by norm_num
